@@ -2892,7 +2892,11 @@ static Type *struct_union_decl(Token **rest, Token *tok) {
   if (tag && !equal(tok, "{")) {
     *rest = tok;
 
-    Type *ty2 = find_tag(tag);
+    // [6.7.2.3p7] `struct T;` declares T in the current scope even if
+    // an enclosing scope has a T. Any other use without a member list
+    // refers to the T that is visible.
+    Type *ty2 = equal(tok, ";")
+      ? hashmap_get2(&scope->tags, tag->loc, tag->len) : find_tag(tag);
     if (ty2)
       return ty2;
 
